@@ -780,6 +780,58 @@ class Streams(object):
                     self.fail('fprints_dict_from_mol: the molecule without its unbonded heavy atoms gives different fingerprints although exclude_floating is on',
                               payload('conformers', name, mm, 0, o, bits, counts, variant=md, extra={'new_to_old': olds}), 'C18:floating-delete')
 
+    # ---- stream 5b: entry-point call sequences with BOTH exclusion settings in one process -------------------------------------------
+    def entry_sequences(self, pool):
+        """fprints_dict_from_mol called repeatedly in one process with the other options fixed and exclude_floating False / default /
+        True in changing order: every call must equal a fresh Fingerprinter with that call's setting (nothing remembered between calls)."""
+        rng = self.rng
+        from rdkit import Chem
+        from e3fp.fingerprint.fprinter import Fingerprinter
+        from e3fp.fingerprint.generate import fprints_dict_from_mol
+
+        def canon(fps):
+            return [(type(x).__name__, int(x.bits), tuple(int(i) for i in x.indices), tuple(sorted((int(a), str(b)) for a, b in x.counts.items()))) for x in fps]
+        for (name, m, cid) in pool:
+            heavy, bonded, fl, hs = classes(m)
+            if not bonded or not fl or len(heavy) < 2:
+                continue
+            o, bits, counts = rand_opts(rng)
+            if o['level'] is None:
+                o['level'] = -1
+            mm = Chem.Mol(m)
+            for c in [c.GetId() for c in mm.GetConformers()]:
+                if c != cid:
+                    mm.RemoveConformer(c)
+            mm.GetConformer(cid).SetId(0)
+            mm.SetProp('_Name', 'c18seq')
+            kw = dict(first=-1, bits=bits, level=o['level'], radius_multiplier=o['mult'], counts=counts, stereo=o['stereo'], include_disconnected=o['incl'],
+                      rdkit_invariants=o['rdkit'], remove_duplicate_substructs=o['remdup'])
+            order = rng.choice([['F', 'D', 'F', 'T'], ['T', 'F', 'D'], ['D', 'F', 'T', 'F'], ['F', 'T']])
+            hist = []
+            for step in order:
+                ex = {'F': False, 'T': True, 'D': True}[step]
+                try:
+                    f = Fingerprinter(bits=bits, level=o['level'], radius_multiplier=o['mult'], stereo=o['stereo'], counts=counts, include_disconnected=o['incl'],
+                                      rdkit_invariants=o['rdkit'], exclude_floating=ex, remove_duplicate_substructs=o['remdup'])
+                    f.run(0, Chem.Mol(mm))
+                    want = canon([f.get_fingerprint_at_level()])
+                except Exception as e:  # noqa
+                    want = 'raises %s' % type(e).__name__
+                try:
+                    d = fprints_dict_from_mol(mm, **(kw if step == 'D' else dict(kw, exclude_floating=ex)))
+                    got = canon(d[max(d)]) if d else 'empty'
+                except Exception as e:  # noqa
+                    got = 'raises %s' % type(e).__name__
+                if isinstance(want, str):
+                    want = 'empty'          # the entry point logs the error and returns {}
+                hist.append((step, got == want))
+                self.bump('entry_sequence_calls')
+                self.ctx.count(('entryseq', name, cid, str(o), bits, counts, tuple(order), len(hist)), True)
+                if got != want:
+                    self.fail('fprints_dict_from_mol call %d of the sequence %s (F: exclude_floating=False, T: True, D: default) differs from a fresh Fingerprinter with that setting'
+                              % (len(hist), '-'.join(order)), payload('entry_sequence', name, mm, 0, o, bits, counts, extra={'order': order, 'agreement_so_far': hist}), 'C18:entry-sequence')
+                    break
+
     # ---- stream 6: the public helper functions -----------------------------------------------------------------------------------
     def helpers(self, pool):
         rng = self.rng
@@ -870,6 +922,7 @@ def run_streams(ctx, base_smiles):
     s.option_grid(grid, levels=(0, 2, None) if ctx.quick else (0, 1, 2, 3, 5, -1, None), count_values=(False, True))
     s.sequences(pool[:ctx.n(150, 800)])
     s.conformers(pool[ctx.n(150, 800):ctx.n(280, 1500)])
+    s.entry_sequences(pool[ctx.n(100, 500):ctx.n(420, 2500)])
     s.helpers(pool[ctx.n(220, 1500):ctx.n(420, 2500)])
     ctx.coverage['input_distribution']['cov_streams'] = dict(sorted(s.st.items()))
     return s.found
